@@ -110,9 +110,11 @@ def readVec (n : Nat) : σ → Res (List Nat) × σ := R.readSlice n
 def readString (n : Nat) : σ → Res (List Nat) × σ :=
   andThen (readVec R n) fun bs s => if utf8Valid bs then (.ok bs, s) else (.invalid, s)
 
-/-- element types `D` of `read_many::<D>` that are modelled (`Deserializable for u8 … usize`) -/
+/-- element types `D` of `read_many::<D>` / `read::<D>` that are modelled: `u8 … usize`, the zero-width
+    `()`, `Option<u8>` and the tuple `(u8, u16)`. Values are encoded as naturals: `()` ↦ 0, `None` ↦ 0,
+    `Some(v)` ↦ v + 1, `(a, b)` ↦ a * 65536 + b. -/
 inductive Elem where
-  | u8 | u16 | u32 | u64 | u128 | usize
+  | u8 | u16 | u32 | u64 | u128 | usize | unit | optU8 | pairU8U16
   deriving Repr, DecidableEq
 
 /-- `D::read_from` -/
@@ -124,6 +126,9 @@ def readElem (e : Elem) : σ → Res Nat × σ :=
   | .u64 => readInt R 8
   | .u128 => readInt R 16
   | .usize => readUsize R
+  | .unit => ret 0
+  | .optU8 => andThen (readBool R) fun b => if b then andThen R.readU8 fun v => ret (v + 1) else ret 0
+  | .pairU8U16 => andThen R.readU8 fun a => andThen (readInt R 2) fun b => ret (a * 65536 + b)
 
 /-- `read_many::<D>(n)`: n elements in order, stopping at the first error -/
 def readMany (e : Elem) : Nat → σ → Res (List Nat) × σ
